@@ -2937,7 +2937,9 @@ void indent_text()
                   if (  pc->Is(CT_SPAREN_OPEN)
                      && options::indent_sparen_extra() != 0)
                   {
-                     frm.top().SetIndent(frm.top().GetIndent() + options::indent_sparen_extra());
+                     // a negative value must not move the indent to the left of the first column
+                     const int sparen_indent = static_cast<int>(frm.top().GetIndent()) + options::indent_sparen_extra();
+                     frm.top().SetIndent((sparen_indent < 1) ? 1 : sparen_indent);
                      log_indent();
                   }
                }
